@@ -759,7 +759,26 @@ def main():
     out_cpp, out_ml = WORK / f"out_cpp_{tier}.txt", WORK / f"out_ml_{tier}.txt"
     tmo = 600 if tier == "quick" else 3000
     t1 = time.time()
-    rc1, err1 = run_to_file([exe, "run", str(opsfile)], out_cpp, tmo)
+    # the harness also executes every operation on its own std::vector<bool> oracle (independent of the
+    # Coq model); ORACLE-* lines are split off, the remaining lines are what the model must reproduce
+    out_raw = WORK / f"out_cpp_raw_{tier}.txt"
+    rc1, err1 = run_to_file([exe, "oracle", str(opsfile)], out_raw, tmo)
+    oracle_mm, oracle_classified = [], Counter()
+    with open(out_raw) as fi, open(out_cpp, "w") as fo:
+        for l in fi:
+            if l.startswith("ORACLE-"):
+                m = re.match(r'^ORACLE-MISMATCH (\S+):(\d+) op="([^"]*)" (\S+) expected=(.*) observed=(.*)$', l.rstrip("\n"))
+                if m:
+                    d = dict(seq=m.group(1), index=int(m.group(2)), op=m.group(3), what=m.group(4),
+                             expected=m.group(5), observed=m.group(6))
+                    f = finding_of(d)
+                    if f:
+                        oracle_classified[f] += 1
+                    elif len(oracle_mm) < 20:
+                        oracle_mm.append(d)
+            else:
+                fo.write(l)
+    os.remove(out_raw)
     t2 = time.time()
     if rc1 != 0:
         # a crash of the real container on in-bounds input is itself a finding: go to search mode
@@ -784,6 +803,10 @@ def main():
         nlines, diffs = first_diffs(out_cpp, out_ml)
         if diffs:
             tie_broken = f"{len(diffs)}+ result lines differ between the real container and the Coq model"
+    rep.cov["oracle_in_harness"] = dict(unexplained_mismatches=len(oracle_mm),
+                                        mismatches_classified_as_confirmed_findings=dict(oracle_classified))
+    if oracle_mm and not tie_broken:
+        tie_broken = f"the real container disagrees with the bit-array oracle of the harness ({len(oracle_mm)}+ operations)"
     if rc1 != 0 and not tie_broken:
         tie_broken = f"harness exited with {rc1}: {err1[-300:]}"
     exc_lines = 0
@@ -846,9 +869,11 @@ def main():
         found = None
         seqs = split_sequences(opsfile)
         order = []
+        if oracle_mm and oracle_mm[0]["seq"] in seqs:
+            order.append(oracle_mm[0]["seq"])
         if diffs:
             sid = diffs[0][1].split(":")[0] if diffs[0][1] else diffs[0][2].split(":")[0]
-            if sid in seqs:
+            if sid in seqs and sid not in order:
                 order.append(sid)
         # 1. the disagreeing sequence, 2. everything generated, 3. fresh seeds
         cand_lines = []
